@@ -39,6 +39,19 @@ type rwReadable struct {
 
 func (r *rwReadable) ReadableLen() int { return r.n }
 
+// fullTransport has every TTransport method plus ReadableLen; its own RemainingBytes answers a sentinel.
+type fullTransport struct {
+	bytes.Buffer
+	n int
+}
+
+func (f *fullTransport) ReadableLen() int              { return f.n }
+func (f *fullTransport) RemainingBytes() uint64        { return 12345 }
+func (f *fullTransport) Flush(_ context.Context) error { return nil }
+func (f *fullTransport) Open() error                   { return nil }
+func (f *fullTransport) IsOpen() bool                  { return true }
+func (f *fullTransport) Close() error                  { return nil }
+
 type onlyRW struct {
 	r io.Reader
 	w io.Writer
@@ -59,6 +72,7 @@ func checkBridge(c BridgeCase, cv *cov) (v *evid.Violation) {
 			tr = apache.NewBufferTransport(buf)
 		}
 		var model []byte
+		refBuf := &bytes.Buffer{} // a second, untouched bytes.Buffer receiving the same operations: the reference for what "is that buffer" means
 		usedTr, usedBuf := false, false
 		// callback state model (process-global registrations; start by clearing them)
 		apache.RegisterCheckTStruct(nil)
@@ -96,6 +110,7 @@ func checkBridge(c BridgeCase, cv *cov) (v *evid.Violation) {
 					v = evid.Failf("step %d %s(%d): n=%d err=%v", i, op.K, n, wn, err)
 					return
 				}
+				refBuf.Write(p)
 				model = append(model, p...)
 			case "r_tr", "r_buf":
 				p := make([]byte, n)
@@ -121,8 +136,26 @@ func checkBridge(c BridgeCase, cv *cov) (v *evid.Violation) {
 					return
 				}
 				model = model[rn:]
+				refBuf.Read(make([]byte, n))
+			case "unread_byte", "read_byte":
+				// bytes.Buffer operations that depend on the buffer's internal read state
+				var e1, e2 error
+				var b1, b2 byte
+				if op.K == "unread_byte" {
+					e1, e2 = buf.UnreadByte(), refBuf.UnreadByte()
+				} else {
+					b1, e1 = buf.ReadByte()
+					b2, e2 = refBuf.ReadByte()
+				}
+				if (e1 == nil) != (e2 == nil) || b1 != b2 {
+					v = evid.Failf("step %d %s on the buffer handle: got (%d,%v), a plain bytes.Buffer with the same history gives (%d,%v)", i, op.K, b1, e1, b2, e2)
+					return
+				}
+				model = append([]byte(nil), refBuf.Bytes()...)
+				usedBuf = true
 			case "reset":
 				buf.Reset()
+				refBuf.Reset()
 				model = nil
 				sawReset = true
 			case "close":
@@ -130,6 +163,7 @@ func checkBridge(c BridgeCase, cv *cov) (v *evid.Violation) {
 					v = evid.Failf("step %d Close: %v", i, err)
 					return
 				}
+				refBuf.Reset() // Close empties the buffer exactly like Reset
 				model = nil
 				sawReset = true
 			case "open":
@@ -288,6 +322,23 @@ func checkBridge(c BridgeCase, cv *cov) (v *evid.Violation) {
 				return
 			}
 		}
+		// an object that brings the whole transport method set (and a readable length) with it: the generic
+		// transport rule still applies to what NewDefaultTransport returns
+		for _, n := range []int{-3, 0, 9} {
+			ft := &fullTransport{n: n}
+			want := uint64(math.MaxUint64)
+			if n > 0 {
+				want = uint64(n)
+			}
+			if got := apache.NewDefaultTransport(ft).RemainingBytes(); got != want {
+				v = evid.Failf("NewDefaultTransport over an object that itself has all transport methods and ReadableLen()=%d: RemainingBytes()=%d, want %d", n, got, want)
+				return
+			}
+		}
+		if got := apache.NewDefaultTransport(apache.NewBufferTransport(bytes.NewBufferString("abc"))).RemainingBytes(); got != math.MaxUint64 {
+			v = evid.Failf("NewDefaultTransport over a buffer transport (an io.ReadWriter without ReadableLen): RemainingBytes()=%d, want max uint64", got)
+			return
+		}
 		inner := &rwPlain{}
 		d := apache.NewDefaultTransport(onlyRW{inner, inner})
 		if got := d.RemainingBytes(); got != math.MaxUint64 {
@@ -316,7 +367,7 @@ func checkBridge(c BridgeCase, cv *cov) (v *evid.Violation) {
 
 func init() { register("c19_bridge", checkBridge) }
 
-var bridgeOps = []string{"w_tr", "w_tr", "w_buf", "w_buf", "r_tr", "r_tr", "r_buf", "r_buf", "reset", "close", "open", "flush", "isopen",
+var bridgeOps = []string{"w_tr", "w_tr", "w_buf", "w_buf", "r_tr", "r_tr", "r_buf", "r_buf", "reset", "close", "close", "open", "flush", "isopen", "unread_byte", "unread_byte", "read_byte",
 	"reg_check", "reg_read", "reg_write", "unreg_check", "unreg_read", "unreg_write", "call_check", "call_read", "call_write", "call_check", "call_read", "call_write"}
 
 func genBridgeCase(t *rapid.T) BridgeCase {
